@@ -4,6 +4,7 @@ import JominiModel.Proofs.TextTapeFaithful3
 import JominiModel.Model.TextDe
 import JominiModel.Spec.TextDoc
 import JominiModel.Proofs.TextDeTapeNested
+import JominiModel.Model.TextReader
 /-
 C02 end to end at the model level, from BYTES to VALUE: the text tape parser model (`TextTape.parse`,
 slice C01) composed with the tape deserializer model (`TextDe.deTape`, this slice).
@@ -434,5 +435,52 @@ example :
       exact FitsT.scalar rfl
   obtain ⟨T, b, h1, h2⟩ := C02_tape_end_to_end .utf8 ty exampleTree [10] hgt hv hb hp rfl hfit
   exact ⟨T, b, h1, h2, by rfl⟩
+
+/-! ### (3) from bytes to value on the stream path -/
+
+def rOp : TextReader.Op → TextDe.Op
+  | .lt => .lt | .le => .le | .gt => .gt | .ge => .ge | .ne => .ne | .exact => .exact | .eq => .eq | .exists_ => .exst
+
+/-- a reader token of the reader model as the deserializer model sees it -/
+def toRTok : TextReader.Token → TextDe.RTok
+  | .open_ => .open_
+  | .close => .close
+  | .op o => .op (rOp o)
+  | .unquoted b => .unq b
+  | .quoted b => .quo b
+
+/-- THE MISSING LEMMA (slice C07 has no faithfulness theorem for its lexer on rendered documents yet):
+the zero-copy slice reader, run on the rendering of a document, ends cleanly and yields exactly the
+document's reader tokens.  (It can only hold for documents without ghost `{}` and without the implicit
+`=`, whose reader tokens `lexemes` does not describe.) -/
+def SliceLexFaithful (fs : JFields) (gt : Bytes) : Prop :=
+  (TextReader.sliceTokens (jrenderF fs ++ gt)).out = .end_ ∧
+  (TextReader.sliceTokens (jrenderF fs ++ gt)).toks.map toRTok = lexemes (toDoc fs)
+
+/-- C02 end to end, stream path, relative to the missing lexer lemma: if the slice reader model is
+faithful on the rendering (`SliceLexFaithful`), then deserializing the reader's tokens yields the value of
+the layout-free document, for every valid layout, both encodings and every fitting root type. -/
+theorem C02_stream_end_to_end_partial (enc : TextDe.Enc) (ty : TextDe.Ty) (fs : JFields) (gt : Bytes)
+    (hv : JValidF fs gt) (hp : PlainF fs) (hlex : SliceLexFaithful fs gt)
+    (hroot : Ty.isRoot ty = true) (hfit : Fits enc ty (.obj (toDoc fs))) :
+    TextDe.deStream enc ty ((TextReader.sliceTokens (jrenderF fs ++ gt)).toks.map toRTok) = valueOf enc ty (toDoc fs) := by
+  rw [hlex.2]
+  exact TextDe.deStream_eq_valueOf enc ty (toDoc fs) hroot (wfF fs gt hp hv) hfit
+
+/-- both paths, from the same bytes, relative to the missing lexer lemma -/
+theorem C02_paths_end_to_end_partial (enc : TextDe.Enc) (ty : TextDe.Ty) (fs : JFields) (gt : Bytes)
+    (hgt : Blank gt) (hv : JValidF fs gt) (hb : hasBom (jrenderF fs ++ gt) = false) (hp : PlainF fs)
+    (hlex : SliceLexFaithful fs gt)
+    (hroot : Ty.isRoot ty = true) (hfit : FitsT enc false ty (.obj (toDoc fs))) :
+    ∃ T b, TextTape.parse (jrenderF fs ++ gt) = .ok T b ∧
+      TextDe.deTape enc ty (toTextDeTape T) =
+        TextDe.deStream enc ty ((TextReader.sliceTokens (jrenderF fs ++ gt)).toks.map toRTok) := by
+  obtain ⟨T, b, h1, h2⟩ := C02_tape_end_to_end enc ty fs gt hgt hv hb hp hroot hfit
+  exact ⟨T, b, h1, by
+    rw [h2, C02_stream_end_to_end_partial enc ty fs gt hv hp hlex hroot (TextDe.fitsT_fits enc hfit)]⟩
+
+/-- the missing lemma holds on C01's example document `a={1 {b=c} {}} d={{x}}` + newline -/
+example : SliceLexFaithful exampleTree [10] := by
+  constructor <;> decide +kernel
 
 end Jomini.TextE2E
